@@ -461,21 +461,23 @@ class NDNApp:
         except KeyError:
             # Registered with ``func=None``: there is no callback to remove
             pass
-        try:
-            _, _, reply = await self.express_interest(
-                make_command('rib', 'unregister', self.face, name=name), lifetime=1000)
+        # Commands are issued one at a time (see register)
+        async with self._prefix_register_semaphore:
             try:
-                ret = parse_response(reply)
-            except (DecodeError, ValueError, IndexError, TypeError, struct.error):
-                self.logger.error('Unregistration for %s failed: malformed response', Name.to_str(name))
+                _, _, reply = await self.express_interest(
+                    make_command('rib', 'unregister', self.face, name=name), lifetime=1000)
+                try:
+                    ret = parse_response(reply)
+                except (DecodeError, ValueError, IndexError, TypeError, struct.error):
+                    self.logger.error('Unregistration for %s failed: malformed response', Name.to_str(name))
+                    return False
+                if ret['status_code'] != 200:
+                    self.logger.error('Unregistration for %s failed: %s %s',
+                                      Name.to_str(name), ret["status_code"], ret["status_text"])
+                    return False
+                return True
+            except (InterestNack, InterestTimeout, InterestCanceled, ValidationFailure):
                 return False
-            if ret['status_code'] != 200:
-                self.logger.error('Unregistration for %s failed: %s %s',
-                                  Name.to_str(name), ret["status_code"], ret["status_text"])
-                return False
-            return True
-        except (InterestNack, InterestTimeout, InterestCanceled, ValidationFailure):
-            return False
 
     def set_interest_filter(self, name: NonStrictName, func: Route,
                             validator: Validator | None = None, need_raw_packet: bool = False,
